@@ -321,12 +321,14 @@ fn u_nextid()
         Some((next, miss)) =>
         {
             assert!(next >= 1, "C01: next id is at least 1");
-            assert!((next as u64) > (m as u64), "C01: next id is above every existing id");
+            // the value u32::MAX doubles as "range exhausted": the insert pass hands out nothing from it
+            assert!((next as u64) > (m as u64) || (m == u32::MAX && next == u32::MAX),
+                "C01: next id is above every existing id (or the range is exhausted)");
             assert!(miss == missing, "C05: first pass counts exactly the statements lacking a reference");
         },
         None =>
         {
-            assert!(m == u32::MAX, "C01: the first pass may only give up when the id range is exhausted");
+            assert!(false, "C06: the first pass always produces a result");
         },
     }
     std::mem::forget(e1);
@@ -476,8 +478,8 @@ fn insert_body(faults: bool, symbolic_content: bool)
             k += 1;
         }
         // C02: the shared counter dominates every id handed out (it is what the lock is written from)
-        assert!(after as u64 >= start as u64 + NIDS as u64 || (NIDS > 0 && r.failure && after == u32::MAX),
-            "C01/C02: the counter ends above every id handed out (no wrap)");
+        assert!(after as u64 == start as u64 + NIDS as u64,
+            "C01/C02: the counter ends just above the last id handed out (no wrap)");
         if !r.failure
         {
             // C03/C05: success => the file is exactly original + one token per missing statement
@@ -581,4 +583,456 @@ fn u_insert_reduce()
         assert!(r.num_inserted_references == sum, "C05: total = sum of per-file insertions");
     }
     kani::cover!(n == 3 && fail, "three files, one failed");
+}
+
+// ---------------------------------------------------------------------------------------------
+// Drivers: real generate_code / check_references with process_references replaced by its contract
+// ---------------------------------------------------------------------------------------------
+// Ghost description of the tree the (stubbed) passes run over.
+static mut G_MAX: u32 = 0; // largest existing id (0 = none)
+static mut G_MISSING: usize = 0; // statements lacking a reference (in readable files)
+static mut G_NFILES: usize = 0;
+static mut G_FINDER_FAILS: bool = false;
+// Ghost outcome of the passes.
+static mut G_STOPPED: bool = false; // some pass was interrupted by the stop flag
+static mut G_EXHAUSTED: bool = false;
+static mut G_INSERT_RAN: bool = false;
+static mut G_INSERT_FAILED: bool = false;
+static mut G_START: u64 = 0; // counter value when the insert pass started
+static mut G_T: u64 = 0; // ids taken from the counter
+static mut G_W: u64 = 0; // tokens that reached the disk (ids within [G_START, G_START+G_T))
+static mut G_PASSES: usize = 0;
+// Lock model.
+static mut LOCK_PRESENT: bool = false;
+static mut LOCK_VALUE: u32 = 0;
+static mut LOCK_WRITES: usize = 0;
+static mut LAST_SERIALIZED: u32 = 0;
+static mut LOCK_WRITTEN_BEFORE_TOKENS: bool = false;
+// Lock as it was on disk at the moment the insert pass put its tokens on disk.
+static mut LOCK_AT_TOKENS_PRESENT: bool = false;
+static mut LOCK_AT_TOKENS_VALUE: u32 = 0;
+
+unsafe fn reset_ghost()
+{
+    G_STOPPED = false;
+    G_EXHAUSTED = false;
+    G_INSERT_RAN = false;
+    G_INSERT_FAILED = false;
+    G_START = 0;
+    G_T = 0;
+    G_W = 0;
+    G_PASSES = 0;
+    LOCK_WRITES = 0;
+    LOCK_WRITTEN_BEFORE_TOKENS = false;
+}
+
+trait PrParam
+{
+    fn counter(&self) -> Option<&AtomicU32>;
+}
+impl PrParam for u32
+{
+    fn counter(&self) -> Option<&AtomicU32>
+    {
+        None
+    }
+}
+impl PrParam for Arc<AtomicU32>
+{
+    fn counter(&self) -> Option<&AtomicU32>
+    {
+        Some(&**self)
+    }
+}
+
+/// What a pass returns, per processor; discharged on the real map/reduce by u_nextid, u_count,
+/// u_insert*, u_insert_reduce and on the real loop by u_pr*.
+trait PrResult: Sized
+{
+    unsafe fn contract(counter: Option<&AtomicU32>) -> Self;
+    fn may_be_none() -> bool
+    {
+        false
+    }
+}
+impl PrResult for (u32, usize)
+{
+    unsafe fn contract(_c: Option<&AtomicU32>) -> Self
+    {
+        // u_nextid: next >= 1, next > every existing id, missing counted exactly
+        let next: u32 = kani::any();
+        kani::assume(next >= 1 && (next > G_MAX || (G_MAX == u32::MAX && next == u32::MAX)));
+        (next, G_MISSING)
+    }
+}
+impl PrResult for u32
+{
+    unsafe fn contract(_c: Option<&AtomicU32>) -> Self
+    {
+        G_MISSING as u32
+    }
+}
+impl PrResult for InsertReferencesResult
+{
+    unsafe fn contract(counter: Option<&AtomicU32>) -> Self
+    {
+        // u_insert: a file with nothing missing is not touched and cannot fail
+        let failure: bool = kani::any();
+        kani::assume(!failure || G_MISSING > 0);
+        let (t, w) = insert_effect(counter, failure, false);
+        let reported: usize = if failure { kani::any() } else { w as usize };
+        G_INSERT_FAILED = failure;
+        let _ = t;
+        InsertReferencesResult {
+            failure,
+            num_inserted_references: reported,
+        }
+    }
+}
+
+/// Effect of a (possibly interrupted or failed) insert pass on the shared counter and the disk,
+/// as established per file by u_insert*: every token on disk carries an id taken from the counter,
+/// ids are consecutive from the counter's start value, the counter ends at start + ids taken and
+/// never wraps; a pass that neither failed nor was interrupted inserted every missing reference.
+unsafe fn insert_effect(counter: Option<&AtomicU32>, failure: bool, stopped: bool) -> (u64, u64)
+{
+    G_INSERT_RAN = true;
+    let c = counter.unwrap();
+    let start = c.load(Ordering::Relaxed) as u64;
+    let t: u64 = kani::any();
+    let w: u64 = kani::any();
+    kani::assume(w <= t && t <= G_MISSING as u64);
+    kani::assume(start + t <= u32::MAX as u64);
+    if !failure && !stopped
+    {
+        kani::assume(w == G_MISSING as u64 && t == w);
+    }
+    c.store((start + t) as u32, Ordering::Relaxed);
+    G_START = start;
+    G_T = t;
+    G_W = w;
+    if w > 0 && LOCK_WRITES > 0
+    {
+        LOCK_WRITTEN_BEFORE_TOKENS = true;
+    }
+    LOCK_AT_TOKENS_PRESENT = LOCK_PRESENT;
+    LOCK_AT_TOKENS_VALUE = LOCK_VALUE;
+    (t, w)
+}
+
+fn stub_process_references<
+    'generator,
+    ProcessorType,
+    Param: Send + Clone + 'static + PrParam,
+    MapResult: Send + 'static,
+    ReduceResult: PrResult,
+>(
+    context: &'generator Context,
+    params: Option<Param>,
+    _finder: &'generator CodeFinder,
+) -> Option<ReduceResult>
+where
+    ProcessorType: ReferenceProcessor<Param, MapResult, ReduceResult>,
+{
+    unsafe {
+        G_PASSES += 1;
+        let counter = match &params
+        {
+            Some(p) => p.counter(),
+            None => None,
+        };
+        // u_pr*: the loop returns None exactly when it sees the stop flag set, and it looks before
+        // every file and before reduce. A flag already set on entry means no file is processed.
+        if context.stop_commanded.load(Ordering::Relaxed)
+        {
+            G_STOPPED = true;
+            return None;
+        }
+        // a signal may arrive at any operation boundary of the pass
+        let signal_now: bool = kani::any();
+        if signal_now
+        {
+            context.stop_commanded.store(true, Ordering::Relaxed);
+            G_STOPPED = true;
+            if counter.is_some()
+            {
+                insert_effect(counter, false, true);
+            }
+            return None;
+        }
+        if ReduceResult::may_be_none() && kani::any()
+        {
+            G_EXHAUSTED = true;
+            return None;
+        }
+        Some(ReduceResult::contract(counter))
+    }
+}
+
+fn stub_finder_find<'ctx>(this: &mut CodeFinder<'ctx>) -> bool
+where
+    'ctx: 'ctx,
+{
+    unsafe {
+        if G_FINDER_FAILS
+        {
+            return false;
+        }
+        let mut v: Vec<CodeFile> = Vec::with_capacity(2);
+        let mut i = 0;
+        while i < G_NFILES
+        {
+            v.push(CodeFile::new(String::new(), CodeLanguage::Rust));
+            i += 1;
+        }
+        this.code_files = v;
+        true
+    }
+}
+
+trait LockPeek
+{
+    fn peek(&self) -> u32;
+}
+impl LockPeek for Cache
+{
+    fn peek(&self) -> u32
+    {
+        self.next_reference_id
+    }
+}
+
+fn stub_yaml_to_string<T>(value: &T) -> Result<String, serde_yaml::Error>
+where
+    T: ?Sized + serde::Serialize + LockPeek,
+{
+    unsafe {
+        LAST_SERIALIZED = value.peek();
+    }
+    Ok(String::new())
+}
+
+/// The lock file write. It is assumed to succeed (a failing lock write is the same window as the
+/// recorded finding "tokens reach the disk before the lock does").
+fn stub_fs_write<P: AsRef<std::path::Path>, C: AsRef<[u8]>>(_path: P, _contents: C) -> std::io::Result<()>
+{
+    unsafe {
+        LOCK_WRITES += 1;
+        LOCK_PRESENT = true;
+        LOCK_VALUE = LAST_SERIALIZED;
+    }
+    Ok(())
+}
+
+fn any_context(check_mode: bool) -> Context
+{
+    let use_cache: bool = kani::any();
+    let lock_before: Option<u32> = unsafe {
+        LOCK_PRESENT = kani::any();
+        LOCK_VALUE = kani::any();
+        // Context::new only reads the lock when use_cache is on; an unparsable lock reads as None
+        if use_cache && LOCK_PRESENT && kani::any() { Some(LOCK_VALUE) } else { None }
+    };
+    Context {
+        config: Config {
+            config_dir: String::new(),
+            source_dir: String::new(),
+            use_cache,
+            rust: RustConfig {
+                structured: kani::any(),
+                log_macros: Vec::new(),
+                extensions: Vec::new(),
+            },
+        },
+        cached_next_reference_id: lock_before,
+        check_mode,
+        stop_commanded: Arc::new(AtomicBool::new(kani::any())),
+    }
+}
+
+unsafe fn any_tree()
+{
+    G_MAX = kani::any();
+    G_MISSING = kani::any();
+    kani::assume(G_MISSING <= 3);
+    G_NFILES = kani::any();
+    kani::assume(G_NFILES <= 2);
+    G_FINDER_FAILS = kani::any();
+}
+
+#[kani::proof]
+#[kani::unwind(4)]
+#[kani::stub(process_references, stub_process_references)]
+#[kani::stub(crate::codegen::finder::CodeFinder::find, stub_finder_find)]
+#[kani::stub(serde_yaml::to_string, stub_yaml_to_string)]
+#[kani::stub(std::fs::write, stub_fs_write)]
+fn d_generate()
+{
+    generate_body(false);
+}
+
+/// Same run, but asking about the operation boundary right after the insert pass: would a kill
+/// there leave ids on disk that the lock file does not cover?
+#[kani::proof]
+#[kani::unwind(4)]
+#[kani::stub(process_references, stub_process_references)]
+#[kani::stub(crate::codegen::finder::CodeFinder::find, stub_finder_find)]
+#[kani::stub(serde_yaml::to_string, stub_yaml_to_string)]
+#[kani::stub(std::fs::write, stub_fs_write)]
+fn d_generate_kill()
+{
+    generate_body(true);
+}
+
+fn generate_body(kill_window: bool)
+{
+    unsafe {
+        fsm::reset();
+        reset_ghost();
+        any_tree();
+    }
+    let ctx = any_context(false);
+    let use_cache = ctx.config.use_cache;
+    let cached = ctx.cached_next_reference_id;
+    let stop_before = ctx.stop_commanded.load(Ordering::Relaxed);
+    let lock_present_before = unsafe { LOCK_PRESENT };
+    let lock_value_before = unsafe { LOCK_VALUE };
+    // Precondition of C01/C02 (induction hypothesis): a lock that is in use is ahead of every id
+    // in the tree and at least 1.
+    if let Some(c) = cached
+    {
+        unsafe {
+            kani::assume(c >= 1 && c > G_MAX);
+        }
+    }
+
+    let res = generate_code(&ctx);
+
+    unsafe {
+        let no_files = G_FINDER_FAILS || G_NFILES == 0;
+        kani::cover!(res.is_ok() && G_W == 3, "three references inserted successfully");
+        kani::cover!(G_STOPPED && G_W > 0, "interrupted after tokens reached the disk");
+        kani::cover!(G_INSERT_FAILED && G_W > 0, "I/O failure after tokens reached the disk");
+        kani::cover!(cached.is_none() && G_MAX == u32::MAX - 2 && G_W == 1, "last usable id of the range handed out");
+
+        assert!(fsm::OPS == 0, "model: drivers perform no file operation outside the passes");
+        if kill_window
+        {
+            kani::cover!(G_W > 0, "tokens on disk");
+            if use_cache && G_W > 0
+            {
+                assert!(LOCK_AT_TOKENS_PRESENT && LOCK_AT_TOKENS_VALUE as u64 >= G_START + G_T,
+                    "C02: [kill-window] a kill right after the insert pass leaves ids on disk that the lock file does not cover");
+            }
+            return;
+        }
+        // C16: nothing in scope / discovery failure => error, nothing written
+        if no_files
+        {
+            assert!(res.is_err(), "C16: no in-scope files or a discovery failure is an error");
+            assert!(G_PASSES == 0 && LOCK_WRITES == 0, "C16: nothing is changed when there is nothing in scope");
+        }
+        // C16: use_cache false => the lock is never written
+        if !use_cache
+        {
+            assert!(LOCK_WRITES == 0, "C16: with use_cache false the lock file is never written");
+        }
+        // C01: ids handed out start above every existing id and at 1 or more
+        if G_INSERT_RAN && G_T > 0
+        {
+            assert!(G_START >= 1 && G_START > G_MAX as u64, "C01: new ids are above every existing id and at least 1");
+            assert!(G_START + G_T <= u32::MAX as u64, "C01: ids stay within the u32 range");
+            if let Some(c) = cached
+            {
+                assert!(G_START == c as u64, "C01: with a lock the ids start at the locked value");
+            }
+        }
+        // C02: however the run ends, a lock in use dominates every id on disk
+        if use_cache && G_W > 0
+        {
+            assert!(LOCK_PRESENT && LOCK_VALUE as u64 >= G_START + G_T,
+                "C02: the lock file is ahead of every id written, however the run ends");
+        }
+        if use_cache && LOCK_PRESENT && (LOCK_WRITES > 0 || cached.is_some())
+        {
+            // 4294967295 doubles as "range exhausted": nothing is ever handed out from it (u_insert)
+            assert!(LOCK_VALUE > G_MAX || LOCK_VALUE == u32::MAX, "C02: the lock file stays ahead of every existing id");
+        }
+        // C08: a failed update is never reported as success
+        if G_INSERT_FAILED
+        {
+            assert!(res.is_err(), "C08: an edit run that failed to update a file does not report success");
+        }
+        if G_EXHAUSTED
+        {
+            assert!(res.is_err(), "C01: an exhausted id range makes the run fail");
+        }
+        // C08/C06: success means everything missing was inserted
+        if res.is_ok() && !no_files
+        {
+            assert!(G_W == G_MISSING as u64 || (G_STOPPED && false), "C08: a successful run inserted every missing reference");
+        }
+        // C18: an interrupted run reports success only if nothing was left to do
+        if G_STOPPED
+        {
+            assert!(res.is_err(), "C18: an interrupted edit run does not report success");
+        }
+        if stop_before && !no_files
+        {
+            assert!(res.is_err() && G_W == 0, "C18: a stop request pending at the start prevents any edit");
+        }
+        // C06: nothing missing => success, no token, lock value unchanged
+        if !no_files && G_MISSING == 0 && !G_STOPPED
+        {
+            assert!(res.is_ok() && G_W == 0, "C06: a complete tree is a fixpoint");
+            if lock_present_before && cached.is_some()
+            {
+                assert!(LOCK_PRESENT && LOCK_VALUE == lock_value_before, "C06: a second run leaves the lock value unchanged");
+            }
+        }
+    }
+    std::mem::forget(ctx);
+}
+
+#[kani::proof]
+#[kani::unwind(4)]
+#[kani::stub(process_references, stub_process_references)]
+#[kani::stub(crate::codegen::finder::CodeFinder::find, stub_finder_find)]
+#[kani::stub(serde_yaml::to_string, stub_yaml_to_string)]
+#[kani::stub(std::fs::write, stub_fs_write)]
+fn d_check()
+{
+    unsafe {
+        fsm::reset();
+        reset_ghost();
+        any_tree();
+    }
+    let ctx = any_context(true);
+    let lock_present_before = unsafe { LOCK_PRESENT };
+    let lock_value_before = unsafe { LOCK_VALUE };
+
+    let res = check_references(&ctx);
+
+    unsafe {
+        let no_files = G_FINDER_FAILS || G_NFILES == 0;
+        kani::cover!(res.is_ok() && !no_files, "check passes");
+        kani::cover!(res.is_err() && G_MISSING > 0 && !G_STOPPED, "check fails because of a missing reference");
+        kani::cover!(G_STOPPED, "check interrupted");
+        // C04: nothing is ever written
+        assert!(fsm::OPS == 0 && LOCK_WRITES == 0 && !G_INSERT_RAN, "C04: check mode performs no write of any kind");
+        assert!(LOCK_PRESENT == lock_present_before && LOCK_VALUE == lock_value_before, "C04: check mode leaves the lock file alone");
+        if no_files
+        {
+            assert!(res.is_err(), "C16: no in-scope files or a discovery failure is an error");
+        }
+        else if G_STOPPED
+        {
+            assert!(res.is_err(), "C18: an interrupted --check never passes");
+        }
+        else
+        {
+            assert!(res.is_err() == (G_MISSING > 0), "C05: --check fails exactly when a reference is missing");
+        }
+    }
+    std::mem::forget(ctx);
 }
